@@ -153,6 +153,10 @@ func ParseSliceHeader(nalu []byte, spsMap map[uint32]*SPS, ppsMap map[uint32]*PP
 		return nil, fmt.Errorf("sps ID %d unknown", spsID)
 	}
 	sh.SeqParamID = spsID
+	if sps.Log2MaxFrameNumMinus4 > 12 || sps.Log2MaxPicOrderCntLsbMinus4 > 12 {
+		return nil, fmt.Errorf("sps log2_max_frame_num_minus4 %d or log2_max_pic_order_cnt_lsb_minus4 %d is larger than 12",
+			sps.Log2MaxFrameNumMinus4, sps.Log2MaxPicOrderCntLsbMinus4)
+	}
 	if sps.SeparateColourPlaneFlag {
 		sh.ColorPlaneID = uint32(r.Read(2))
 	}
